@@ -1,7 +1,7 @@
 (* C14 — run_forever always terminates; on_close fires once, last, with the close reason.
    Statements only (restated verbatim from Proofs/*.v), each closed by [exact]. *)
 From Coq Require Import ZArith List Bool Permutation.
-From WS Require Import Base.Res Base.Bytes Spec.Frame Spec.Legal Spec.AppTrace Gen.GenAbnf Model.Recv Model.Conn Model.App Proofs.RecvSpec Proofs.ConnSpec Proofs.ConnProof Proofs.AppProof.
+From WS Require Import Base.Res Base.Bytes Spec.Frame Spec.Legal Spec.AppTrace Gen.GenAbnf Gen.GenApp Model.Recv Model.Conn Model.App Proofs.RecvSpec Proofs.ConnSpec Proofs.ConnProof Proofs.AppProof Proofs.AppGen.
 Import ListNotations.
 Open Scope Z_scope.
 
@@ -133,3 +133,17 @@ Theorem C14_clean : forall cfg env, let s := snd (run_forever cfg env) in
   has_sock s = false /\ sock_open s = false /\ keep_running s = false /\ torn_down s = true.
 Proof. exact AppProof.C14_clean. Qed.
 Print Assumptions C14_clean.
+
+(* CODE TIE: the arguments of on_close are the decisions and values regenerated from WebSocketApp._get_close_args (the reason as raw bytes; CPython's decode(errors='replace') of them is outside the model) *)
+Theorem C14_close_args_are_the_code : forall cfg frame,
+  close_args cfg frame =
+  if close_args_none (cb_set (on_close cfg)) (match frame with Some _ => true | None => false end)
+  then (None, None)
+  else match frame with
+       | None => (None, None)
+       | Some f => if close_args_has_code (a_data f)
+                   then (Some (close_args_code (a_data f)), Some (close_args_reason (a_data f)))
+                   else (None, None)
+       end.
+Proof. exact AppGen.close_args_gen. Qed.
+Print Assumptions C14_close_args_are_the_code.
